@@ -9,7 +9,7 @@ REQUIRED = ["Never.C13.tail_call_restores_entry",
             "Never.Src.Tail.C13.tail_table_agrees", "Never.Src.Tail.C13.retag_rule_agrees", "Never.Src.Tail.C13.tail_table_sound_partial",
             "Never.Src.Tail.C13.tail_table_complete", "Never.Src.Tail.C13.tail_table_catch_and_nested", "Never.Src.Tail.C13.case_labels_covered",
             "Never.Src.Tail.C13.cTab_eq_refTab", "Never.Src.Tail.C13.opens_table_consistent", "Never.Src.Tail.C13.marker_sound", "Never.Src.Tail.C13.marker_sound_c_partial",
-            "Never.Src.Tail.C13.marker_complete", "Never.Src.Tail.C13.marker_complete_c", "Never.Src.Tail.C13.marker_skips_catch",
+            "Never.Src.Tail.C13.marker_sound_self", "Never.Src.Tail.C13.marker_sound_self_c", "Never.Src.Tail.C13.pinned_scope_marks_match_binding_counterexample", "Never.Src.Tail.C13.marker_complete", "Never.Src.Tail.C13.marker_complete_c", "Never.Src.Tail.C13.marker_skips_catch",
             "Never.Src.Tail.C13.marker_skips_catch_c", "Never.Src.Tail.C13.tail_position_value", "Never.Src.Tail.C13.tail_call_owes_handlers", "Never.Src.Tail.C13.tail_call_replaces_frame",
             "Never.Src.Tail.C13.operand_not_tail_counterexample", "Never.Src.Tail.C13.scrutinee_not_tail_counterexample"]
 
@@ -111,7 +111,7 @@ def check(tier, seed):
                    evaluations=2 * len(rows) + tp["programs"], distinct_nontrivial=len(rows) + tp["functions"],
                    rule="each tail-recursive shape (?:, block, match arm, record match arm, if-let, no-parameter with local, allocating) is run at N and 10N iterations, N far above the 200-slot stack; peak sp (per-instruction hook) must be equal; the N run is replayed in lockstep on the Lean VM",
                    samples=rows[:4], rows=rows, statuses=stats)
-    rep.assumptions = ["front/tailrec.c is modelled by Model/TailRec.lean (markedAt over the table regenerated from the C text by gen/tailtab.py); the self test (symbol-table lookup) is mirrored by names: parameters and block items shadow; names bound by match / if-let guards and for-in are visible only below the next block",
+    rep.assumptions = ["front/tailrec.c is modelled by Model/TailRec.lean (markedAt over the table regenerated from the C text by gen/tailtab.py); the self test (symbol-table lookup) is mirrored by names: parameters, block items and the names record guards bind shadow (the lexical scope along tail paths)",
                        "the excused table entry: the function expression of a call receives the tail flag (marker_sound_c_partial); no typed program can exploit it",
                        "whether a retagged call may replace the frame of a function WITH catch clauses is not part of the model: known finding tail-call-under-own-catch-clauses",
                        "result = equivalent loop is covered through the lockstep replay, C02's evaluator on the position-class programs, and tail_position_value on the evaluator"]
